@@ -311,6 +311,7 @@ func runC20(c *Ctx) {
 	c.R.Rule = "T1: blocks 1x1..64x64 (quick: mostly <= 16x16, a few up to 64x64), orientation 0..3, all 64 style " +
 		"combinations (cycled), fractional bits 0 and 6, content classes zero / +-1 / small / medium / large / sparse / " +
 		"one sample / striped (run-length mode) / dense +-2^30 / mixed; all 3*planes-2 passes and truncated pass counts; " +
+		"plus the raw-ones family (1-D blocks whose bypass segments at the low bit planes are runs of one-bits of every length 0..27, so that raw segments end in FF / FF 7F / FF FF with the pass boundary inside the tail); " +
 		"non-trivial = at least one non-zero coefficient"
 	rng := c.Rng.Fork()
 	n := c.N(512, 6400)
@@ -335,6 +336,9 @@ func runC20(c *Ctx) {
 		}
 		cases = append(cases, k)
 	}
+	// raw (bypass) segments made of one-bits only, of every length 0..27: the boundary of the bypass
+	// termination (segments ending in FF, FF 7F, FF FF ...; pass boundary inside the tail)
+	cases = append(cases, rawOnesBlocks(c.Thor)...)
 	// the historical witness of finding F18 (LAZY without TERMALL, fixed in /repo b319f17):
 	// 1x1 block [16], style 0x01 decoded as 18
 	cases = append(cases, Case{W: 1, H: 1, Orient: 0, Style: 1, FB: 0, NP: -1, Kind: "F18", Data: []int32{16}})
@@ -512,4 +516,57 @@ func runCase(c *Ctx, k Case, i int) {
 			c.R.Fail("oracle", "t1_roundtrip", "t1:roundtrip:"+site+":"+sigBase, what, k)
 		}
 	}
+}
+
+// rawOnesBlocks: 1 x n and n x 1 blocks  [lead, 0,] -1, A x m, -1 x r  with A odd >= 17. At bit plane 0
+// (a raw SPP+MRP segment under LAZY) the significance pass emits 2 one-bits for every -1 (they
+// become significant in scan order, each next to an already significant sample, sign negative)
+// and the refinement pass one one-bit per A; the optional lead sample is coded by the cleanup pass.
+func rawOnesBlocks(thor bool) []Case {
+	var out []Case
+	as := []int32{17, 21, 31, 33, 63}
+	styles := []int{0x01, 0x21, 0x03}
+	if thor {
+		as = []int32{17, 19, 21, 23, 25, 27, 29, 31, 33, 35, 49, 63, 127}
+		styles = []int{0x01, 0x09, 0x21, 0x03, 0x29, 0x11, 0x05, 0x15}
+	}
+	for _, a := range as {
+		for m := 0; m <= 8; m++ {
+			for k := 0; k <= 9; k++ {
+				for lead := 0; lead < 2; lead++ {
+					for _, st := range styles {
+						for col := 0; col < 2; col++ {
+							if m == 0 && k > 0 {
+								continue
+							}
+							var d []int32
+							if lead == 1 {
+								d = append(d, 1, 0)
+							}
+							r := k
+							if k > 0 && (k+m)%2 == 1 { // sometimes one of the -1 sits on the left of the run
+								d = append(d, -1)
+								r--
+							}
+							for i := 0; i < m; i++ {
+								d = append(d, a)
+							}
+							for i := 0; i < r; i++ {
+								d = append(d, -1)
+							}
+							if len(d) == 0 || len(d) > 64 {
+								continue
+							}
+							kc := Case{W: len(d), H: 1, Orient: (m + k) % 4, Style: st, FB: 0, NP: -1, Kind: "raw-ones", Data: d}
+							if col == 1 {
+								kc.W, kc.H = 1, len(d)
+							}
+							out = append(out, kc)
+						}
+					}
+				}
+			}
+		}
+	}
+	return out
 }
